@@ -6,7 +6,7 @@ for d in seeded/*; do
   prop=${id:0:3}
   case $id in
     C10-r5|C20-r5) prop=C11 ;;   # its effect is C11's subject (see meta.json)
-    C02-r5|C09-r10) continue ;;
+    C02-r5|C09-r10|C15-r11) continue ;;
     C02) prop=C11 ;;      # first-round C02 seed is a stale-handle bug (see DESIGN §6)   # not counted: needs an invalid history
   esac
   tools/seedrun_wt.sh $id $prop 2>&1 | grep "^SEED"
